@@ -162,7 +162,18 @@ Definition check_dbl (c : bool * bool * bool) : N :=
 
 (* ---------------------------------------------------------------- generated block accepted by the own node *)
 (* (forged, accepted without error, tip is the generated block afterwards, panic, payload size, size limit,
-   number of transactions in the block that were scripted to fail verification) *)
-Definition check_accept (c : bool * bool * bool * bool * N * N * N) : N :=
-  let '(forged, accepted, tip_is_block, pan, payload, limit, bad_in) := c in
-  let ok := forged && accepted && tip_is_block && negb pan && (payload <=? limit) && (bad_in =? 0) in code ok ok.
+   number of transactions in the block that were scripted to fail verification or to execute as invalid,
+   every sealed field equals the value the harness recomputed independently (state root of the application, transaction /
+   asset / event roots, validatorsHash, previous ID, generator of the slot, timestamp slot, aggregation bits length, pooled
+   aggregate commit used), tip height and node maxHeightPrevoted before forging, the generator's persisted info before,
+   (height, maxHeightPrevoted, maxHeightGenerated) of the generated header) *)
+Definition check_accept (c : bool * bool * bool * bool * N * N * N * bool * N * N * option geninfo * (N * N * N)) : N :=
+  let '(forged, accepted, tip_is_block, pan, payload, limit, bad_in, fields_ok, tiph, nodemhp, disk0, hdr) := c in
+  let '(hh, hmhp, hmhg) := hdr in
+  (* the BFT fields of the header are those initBlockHeader (Forge.GenInfo) yields from the persisted info and the tip *)
+  let hdr_ok := match init_header disk0 {| t_smhp := nodemhp; t_height := tiph |} 0 with
+                | Some (h, _) => (height h =? hh) && (mhp h =? hmhp) && (mhg h =? hmhg)
+                | None => false
+                end in
+  let ok := forged && accepted && tip_is_block && negb pan && (payload <=? limit) && (bad_in =? 0) && fields_ok in
+  code (ok && hdr_ok) ok.
